@@ -31,6 +31,8 @@ def run(cx):
     r2(cx)
     r3(cx)
     r4(cx)
+    cx.rule("C06.R5", "K2", "a task's own catches are registered before anything in its init can fail (package lookup, params validation, `uses` check, setup): an error raised while the act / step is being initialised finds its catch")
+    r5_registered_first(cx)
 
 
 def r1(cx):
@@ -41,6 +43,10 @@ def r1(cx):
     total = 0
     used = set()
     kinds = {}
+    from vlib.ts import Summaries
+    sm = cx.shared("summaries", lambda: Summaries(m))
+    how_of = {e["key"]: e["how"] for e in json.load(open(p))["discards"]}
+    pending = []
     for f in sorted(m.fns.values(), key=lambda f: f.q):
         if f.crate != "acts" or f.exp or "tests" in f.q:
             continue
@@ -60,10 +66,25 @@ def r1(cx):
                 if key in table:
                     used.add(key)
                     cx.ob("C06.R1", "discard:%s" % key, True, "discarded error (%s) at a listed site: %s" % (v[1], table[key]), c.loc)
+                elif c.q in m.fns and m.fns[c.q].returns_result() and c.q not in sm.may_fail():
+                    # nothing is lost: the callee has no path that constructs or propagates an error (may-fail summary)
+                    cx.ob("C06.R1", "discard:%s" % key, True, "the dropped Result of `%s` is always Ok (the callee cannot fail: may-fail summary)" % short_name(c.q), c.loc)
                 else:
-                    cx.ob("C06.R1", "discard:%s" % key, False,
-                          "`%s` drops the error of `%s` (%s) and the site is not in the exception table: the failure never reaches the task / the client" % (
-                              f.short, short_name(c.q), v[1]), c.loc)
+                    pending.append((key, f, c, v))
+    # a listed site whose code was moved (extracted into a helper, closure turned into a function): an unlisted discard of
+    # the same callee, consumed the same way, while the listed site no longer exists, is that site at its new place
+    free = [k for k in table if k not in used]
+    for key, f, c, v in pending:
+        cal = short_name(c.q)
+        moved = [k for k in free if k.split("<-", 1)[1].split("#")[0] == cal and how_of.get(k) == v[1]]
+        if moved:
+            free.remove(moved[0])
+            used.add(moved[0])
+            cx.ob("C06.R1", "discard:%s" % moved[0], True, "discarded error (%s) at a listed site that moved to `%s`: %s" % (v[1], f.short, table[moved[0]]), c.loc)
+        else:
+            cx.ob("C06.R1", "discard:%s" % key, False,
+                  "`%s` drops the error of `%s` (%s) and the site is not in the exception table: the failure never reaches the task / the client" % (
+                      f.short, short_name(c.q), v[1]), c.loc)
     cx.note("C06.R1: %d calls returning Result<_, ActError> classified: %s" % (total, kinds))
     if total < 250:
         cx.undecide("C06.R1", "only %d ActError-returning call sites found (floor 250)" % total)
@@ -241,3 +262,98 @@ def _switch_of(f, c):
     if f.blocks[sb]["t"][0] != "switch":
         raise Anchor("result of %s is not branched on" % short_name(c.q))
     return sb
+
+
+def r5_registered_first(cx):
+    """every error exit of <Act|Step as ActTask>::init lies behind the completed registration of the node's catches; the one
+    exception is the evaluation of the node's own `if` condition (the node has not started: nothing of it is set up)"""
+    from rules.c16 import natural_loops
+    from vlib.model import ITER_NEXT
+    from vlib.ts import Summaries, TRY_BRANCH
+    m = cx.m
+    pa = Prov(m, "alias")
+    sm = cx.shared("summaries", lambda: Summaries(m))
+    inits = [f for f in m.fns.values() if re.search(r"<impl (\S+::)?ActTask for .*>::init$", f.q) and f.crate == "acts"]
+    n = 0
+    for f in sorted(inits, key=lambda f: f.q):
+        clos = [g for g in m.fns.values() if g.q.startswith(f.q + "::{closure")]
+        reg_here = [c for c in f.calls() if c.q.endswith("Task::add_hook_catch")]
+        reg_clos = [g for g in clos if any(c.q.endswith("Task::add_hook_catch") for c in g.calls())]
+        if not reg_here and not reg_clos:
+            continue
+        n += 1
+        done = set()       # blocks at whose entry the registration is complete (or there is nothing to register)
+        loops = natural_loops(f)
+        for c in reg_here:
+            around = [(h, body) for h, body in loops if c.b in body]
+            if not around:
+                # a single registration outside any loop: complete right after the call
+                if c.target is not None:
+                    done.add(c.target)
+                continue
+            h, body = min(around, key=lambda x: len(x[1]))
+            for b in body:
+                for sx in f.succ(b):
+                    if sx not in body and f.blocks[sx]["t"][0] != "unreachable":
+                        # leaving the loop other than through the end of the iteration is not "complete"
+                        t = f.blocks[b]["t"]
+                        r = pa.root(f, t[1]) if t[0] == "switch" else None
+                        if r is not None and r[0] == "discr" and r[1][0] == "call" and ITER_NEXT.search(r[1][1]):
+                            done.add(sx)
+        for c in f.calls():
+            for a in c.args[1:]:
+                r = pa.root(f, a)
+                if r[0] == "closure" and any(r[1] == g.q for g in reg_clos) and re.search(r"Iterator(>)?::for_each(::<.*>)?$", c.q) and c.target is not None:
+                    done.add(c.target)
+        # `if !self.catches.is_empty() { register }`: the empty edge has nothing to register
+        for bi, b in enumerate(f.blocks):
+            t = b["t"]
+            if t[0] != "switch":
+                continue
+            r = pa.root(f, t[1])
+            neg = False
+            while r[0] == "not":
+                neg = not neg
+                r = r[1]
+            if r[0] == "call" and r[1].endswith("::is_empty"):
+                who = pa.root(f, Call(f, r[2]).args[0])
+                if who[0] == "param" and who[1] == 1 and [x for x in who[3] if x != "*"][-1:] == ["catches"]:
+                    from vlib.model import bool_target
+                    tb = bool_target(f, bi, not neg)   # the edge on which is_empty() is true
+                    if tb is not None:
+                        done.add(tb)
+        before = f.reach_from([0], avoid=done)
+        for b, kind in f.exit_defs():
+            if kind == "OK":
+                continue
+            t = f.blocks[b]["t"]
+            src = None
+            if kind == "ERR_PROP":
+                r = pa.root(f, t[2][0])
+                if r[0] == "call" and TRY_BRANCH.search(r[1]):
+                    r = pa.root(f, Call(f, r[2]).args[0])
+                while r[0] == "call" and re.search(r"Result::<T, E>::(map_err|map|or_else|and_then)$|Option::<T>::ok_or(_else)?$", r[1]):
+                    r = pa.root(f, Call(f, r[2]).args[0])
+                src = r
+            elif kind == "CALL":
+                src = ("call", t[1].get("q") or "", b, ())
+                if src[1] in m.fns and src[1] not in sm.may_fail():
+                    continue
+            what = short_name(src[1]) if (src and src[0] == "call") else ("a refusal raised in init" if kind == "ERR_NEW" else "an error")
+            # the exception: the node's own `if` condition
+            if src and src[0] == "call" and src[1].endswith("Context::eval") or (src and src[0] == "call" and re.search(r"Context::eval(::<.*>)?$", src[1])):
+                cond_of_if = False
+                for gd in guards_of(m, f, b, mode="alias"):
+                    r = gd.root
+                    if r[0] == "discr" and r[1][0] == "param" and r[1][1] == 1 and [x for x in r[1][3] if x != "*"][-1:] in (["if"], ["r#if"]) and discr_variants(m, gd) == {"Some"}:
+                        cond_of_if = True
+                if cond_of_if:
+                    cx.ob("C06.R5", "%s:%s:if-condition" % (f.short, what), True, "the node's own `if` condition is evaluated before anything of the node is set up (a node whose condition cannot be evaluated has not started)", f.loc(b))
+                    continue
+            ok = b not in before
+            cx.ob("C06.R5", "%s:registered-before:%s" % (f.short, what), ok,
+                  "`%s` can fail with %s only after the node's catches are registered%s" % (
+                      f.short, what, "" if ok else " - but this exit is reachable before the registration loop has run: the error by-passes the node's own catch, climbs to the step / workflow and ends the process in error"), f.loc(b))
+    cx.floor("C06.R5", 4)
+    if n < 2:
+        cx.undecide("C06.R5", "expected the init of Act and Step to register catches, found %d" % n)
